@@ -471,9 +471,19 @@ func c16ReleaseAs(p *load.Program, r *oblig.Report, rule string) {
 				fa, ok := ld.X.(*ssa.FieldAddr)
 				return ok && fa.X == ssa.Value(recv) && "."+an.FieldName(fa.X.Type(), fa.Field) == field
 			}
+			// the Put may sit in a release helper that did not exist at review time: the guard and the clearing of the
+			// field are then looked for around the helper's call site in Close
+			var at ssa.Instruction = put
+			if put.Parent() != fn {
+				for _, site := range an.SitesOf(put.Parent()) {
+					if si, ok := site.(ssa.Instruction); ok && si.Parent() == fn {
+						at = si
+					}
+				}
+			}
 			// guard: the Put runs only when the field was non-nil
 			guarded := false
-			for d, child := put.Block().Idom(), put.Block(); d != nil; d, child = d.Idom(), d {
+			for d, child := at.Block().Idom(), at.Block(); d != nil; d, child = d.Idom(), d {
 				_, ci := an.IfCond(d)
 				if ci == nil || !an.IsNilConst(ci.Y) || !isField(ci.X) {
 					continue
@@ -497,7 +507,7 @@ func c16ReleaseAs(p *load.Program, r *oblig.Report, rule string) {
 				if !ok || fa.X != ssa.Value(recv) || "."+an.FieldName(fa.X.Type(), fa.Field) != field {
 					return
 				}
-				if s.Block() == put.Block() || s.Block().Dominates(put.Block()) {
+				if s.Block() == at.Block() || s.Block().Dominates(at.Block()) {
 					// and after the nil test
 					cleared = true
 				}
